@@ -1,3 +1,227 @@
 import LocustModel.Proto
-/- Driver stub for C12 (replaced when the property's model is built). -/
-def main : IO Unit := LM.Proto.runDriver fun _ => "?\t?"
+import LocustModel.Query.NormProto
+/-
+  Driver for C12.  One line in, `<model> TAB <spec> [TAB <known-finding-id>]` out.
+
+    front <parsed> ## <status>
+        the real `parse_query` + `Query::normalize` on the statement whose mirrored syntax tree is <parsed>;
+        <status> = ok | err | panic (what the implementation did).
+        model  = `ok <Query dump> # <normal-form dump>` | `ok <Query dump> # err:<kind>` | `err:<kind>` | `panic`
+        spec   = BAD iff the implementation panicked.
+    run <exists01> <meta: m | n | l<hexnames>> <partitions> <rows> <hexcolumns> <rowformat01> <parsed> ## <obs>
+        the real `run_query`.  <obs> = err:<kind> | panic | hang | ok <hexnames> <ncols> (<hexname>=<cells>)* R<rows|->
+        model  = `err:<kind>` (front-end error value) | `ok n=<names> c=<#columns> r=<#rows>` | `?` (the
+                 implementation returned an execution-stage error value, which this model does not predict)
+        spec   = OK | BAD <reason>: never panic / hang / Canceled; unknown table ⇒ error value; a result is
+                 `WellFormed` for the select list and LIMIT written in the statement; unknown column ⇒ NULLs.
+    mut ## <obs>
+        byte-level mutation of a statement (no tree): model `?`, spec = shape of the answer only.
+-/
+namespace LM.DrvC12
+open LM LM.Proto LM.Norm LM.NormProto
+
+/-! ### Observed answers -/
+
+inductive Obs where
+  | err (kind : String)
+  | panic
+  | hang
+  | ok (out : Output String)
+
+def parseNames (t : String) : Option (List String) := parseList hexToString t
+
+def parseCellList (t : String) : Option (List String) :=
+  if t = "[]" then some [] else some (t.splitOn ",")
+
+def parseObsCol (t : String) : Option (String × List String) :=
+  match t.splitOn "=" with
+  | [n, cells] => do
+      let name ← hexToString n
+      let cs ← parseCellList cells
+      pure (name, cs)
+  | _ => none
+
+def parseObsRows (t : String) : Option (Option (List (List String))) :=
+  match t.toList with
+  | 'R' :: rest =>
+      let r := String.ofList rest
+      if r = "-" then some none
+      else if r = "[]" then some (some [])
+      else some (some ((r.splitOn ";").map fun row => if row = "()" then [] else row.splitOn ","))
+  | _ => none
+
+def parseObs (ts : List String) : Option Obs :=
+  match ts with
+  | ["panic"] => some .panic
+  | ["hang"] => some .hang
+  | "ok" :: names :: ncols :: rest => do
+      let colnames ← parseNames names
+      let n ← ncols.toNat?
+      if rest.length ≠ n + 1 then none else
+      let cols ← (rest.take n).mapM parseObsCol
+      let rows ← parseObsRows (rest.getD n "")
+      pure (.ok { colnames := colnames, rows := rows, columns := cols })
+  | [t] => if t.startsWith "err:" then some (.err (t.drop 4).toString) else none
+  | _ => none
+
+def showNames (ns : List String) : String := showList stringToHex ns
+
+/-- Canonical comparison text of an observation (the harness prints the same). -/
+def Obs.tok : Obs → String
+  | .err k => "err:" ++ k
+  | .panic => "panic"
+  | .hang => "hang"
+  | .ok o => "ok n=" ++ showNames o.colnames ++ " c=" ++ toString o.columns.length ++ " r=" ++ toString o.len
+
+/-! ### Specification side -/
+
+/-- The written LIMIT of the statement (none written, or not a u64 literal: no bound). -/
+def writtenLimit : ALimit → Nat
+  | .limitOffset (some (.value (.number text _))) _ => (parseU64 text).getD U64_MAX
+  | .offsetCommaLimit _ (.value (.number text _)) => (parseU64 text).getD U64_MAX
+  | _ => U64_MAX
+
+/-- One select item of the statement: the name the answer must use (if the item fixes one) and whether
+    the column must be all NULL (a plain reference to a column the table does not have). -/
+structure ItemSpec where
+  name : NameSpec
+  unknownColumn : Bool
+
+def identOf : AExpr → Option String
+  | .ident v => some v
+  | _ => none
+
+def itemSpec (columns : List String) : SelItem → ItemSpec
+  | .unnamed e display =>
+      match identOf e with
+      | some c => { name := .exact (stripQuotes display), unknownColumn := !columns.contains c }
+      | none => { name := .any, unknownColumn := false }
+  | .aliased e a =>
+      { name := .exact (stripQuotes a),
+        unknownColumn := match identOf e with | some c => !columns.contains c | none => false }
+  | .wildcard => { name := .exact "*", unknownColumn := !columns.contains "*" }
+  | .other => { name := .any, unknownColumn := false }
+
+/-- Select list and LIMIT the statement writes, when it is a single SELECT. -/
+def specOf (p : Parsed) (cat : Catalog) (columns : List String) : Option (List ItemSpec × Nat) :=
+  match p with
+  | .stmts [.query q] =>
+      match q.body with
+      | .select s =>
+          let items :=
+            match s.projection, cat.metaCols with
+            | [.wildcard], .names l => (sortNames l).map fun n => { name := .exact n, unknownColumn := false }
+            | its, _ => its.map (itemSpec columns)
+          some (items, writtenLimit q.limit)
+      | .other => none
+  | _ => none
+
+def nullsOk (items : List ItemSpec) (cols : List (String × List String)) : Bool :=
+  match items, cols with
+  | it :: its, c :: cs => (!it.unknownColumn || c.2.all (· == "_")) && nullsOk its cs
+  | _, _ => true
+
+/-- Shape of an answer whose select list is not known: names match the columns, equal lengths, both
+    views agree. -/
+def shapeOnly (o : Output String) : Bool :=
+  decide (WellFormed (o.colnames.map fun _ => NameSpec.any) U64_MAX o)
+
+def judgeAnswer (p : Parsed) (cat : Catalog) (columns : List String) (o : Output String) : String :=
+  if !cat.tableExists then "BAD unknown-table-answered" else
+  match specOf p cat columns with
+  | none => if shapeOnly o then "OK" else "BAD ill-formed"
+  | some (items, limit) =>
+      if !decide (WellFormed (items.map (·.name)) limit o) then
+        (if o.columns.length ≠ items.length then "BAD column-count"
+         else if o.colnames ≠ o.columns.map (·.1) then "BAD colnames-vs-columns"
+         else if !namesOk (items.map (·.name)) o.colnames then "BAD names"
+         else if !decide (∀ c ∈ o.columns, c.2.length = o.len) then "BAD unequal-lengths"
+         else if !decide (o.len ≤ limit) then "BAD more-rows-than-limit"
+         else "BAD row-view-differs")
+      else if !nullsOk items o.columns then "BAD unknown-column-not-null"
+      else "OK"
+
+def judge (p : Option Parsed) (cat : Catalog) (columns : List String) : Obs → String
+  | .panic => "BAD panic-in-caller"
+  | .hang => "BAD hang"
+  | .err k => if k = "canceled" then "BAD lost-answer" else "OK"
+  | .ok o =>
+      match p with
+      | some p => judgeAnswer p cat columns o
+      | none => if shapeOnly o then "OK" else "BAD ill-formed"
+
+/-! ### Model side -/
+
+def mentionsOnlyColumns (obs : List (Expr × Bool)) : Bool :=
+  obs.all fun ob => isColName ob.1
+
+/-- Number of rows, when the front-end model alone determines it: no partitions; or no WHERE, no
+    aggregate, ORDER BY (if any) on plain columns. -/
+def predictRows (plan : TaskPlan) (q : Query) (rows : Nat) : Option Nat :=
+  let lim := plan.norm.outputPass.limit
+  if plan.partitions = 0 then some 0
+  else if q.filter == .const (.int 1) && plan.norm.main.aggregate.isEmpty && plan.norm.final.isNone
+      && mentionsOnlyColumns q.orderBy then
+    some (min lim.limit (rows - min lim.offset rows))
+  else none
+
+def modelRun (p : Parsed) (cat : Catalog) (rows : Nat) (obs : Obs) : String :=
+  match runFront p cat with
+  | .err e => "err:" ++ toString e
+  | .fault _ => "panic"
+  | .ok plan =>
+      match obs with
+      | .err k => if k = "canceled" then "ok" else "?"
+      | _ =>
+        let r := match parseQuery p with
+          | .ok q => predictRows plan q rows
+          | _ => none
+        let rtxt := match r, obs with
+          | some n, _ => toString n
+          | none, .ok o => toString o.len
+          | none, _ => "?"
+        "ok n=" ++ showNames plan.outputColnames ++ " c=" ++ toString plan.outputColnames.length ++ " r=" ++ rtxt
+
+def modelFront (p : Parsed) : String :=
+  match parseQuery p with
+  | .err e => "err:" ++ toString e
+  | .fault _ => "panic"
+  | .ok q => "ok " ++ showQuery q ++ " # " ++ showRes showNormalized (normalize q)
+
+/-! ### Lines -/
+
+def splitAt (ts : List String) : List String × List String :=
+  (ts.takeWhile (· ≠ "##"), (ts.dropWhile (· ≠ "##")).drop 1)
+
+def parseMeta (t : String) : Option MetaCols :=
+  if t = "m" then some .missing else if t = "n" then some .notString
+  else match t.toList with
+    | 'l' :: rest => (parseNames (String.ofList rest)).map .names
+    | _ => none
+
+def step (line : String) : String :=
+  match splitTokens line with
+  | "front" :: rest =>
+      let (ast, status) := splitAt rest
+      match pParsed ast with
+      | some (p, []) =>
+          modelFront p ++ "\t" ++ (if status = ["panic"] then "BAD panic-in-caller" else "OK")
+      | _ => "bad-op\tbad-op"
+  | "run" :: ex :: metaTok :: parts :: rows :: cols :: rf :: rest =>
+      let (ast, obsToks) := splitAt rest
+      match pParsed ast, parseObs obsToks, parseMeta metaTok, parts.toNat?, rows.toNat?, parseNames cols with
+      | some (p, []), some obs, some m, some np, some nr, some columns =>
+          let cat : Catalog := { tableExists := ex = "1", metaCols := m, partitions := np }
+          let _ := rf
+          modelRun p cat nr obs ++ "\t" ++ judge (some p) cat columns obs
+      | _, _, _, _, _, _ => "bad-op\tbad-op"
+  | "mut" :: rest =>
+      let (_, obsToks) := splitAt rest
+      match parseObs obsToks with
+      | some obs => "?\t" ++ judge none { tableExists := true, metaCols := .missing, partitions := 0 } [] obs
+      | none => "bad-op\tbad-op"
+  | _ => "bad-op\tbad-op"
+
+end LM.DrvC12
+
+def main : IO Unit := LM.Proto.runDriver LM.DrvC12.step
